@@ -471,10 +471,10 @@ class HistModel:
 
     def __init__(self, ext, tier, prefix=()):
         self.ext, self.tier, self.prefix = ext, tier, [list(p) for p in prefix]
-        ops = [["w", "A"], ["w", "B"], ["w", "C"], ["rn", "A"], ["rn", "B"], ["load"], ["model", "image"],
-               ["model", "charge"], ["cropped"]]
+        ops = [["load"], ["cropped"], ["model", "image"], ["model", "charge"]]
         if tier == "thorough":
             ops.append(["obs"])
+        ops += [["w", "B"], ["w", "C"], ["w", "A"], ["rn", "B"], ["rn", "A"]]
         self._ops = ops
 
     def initial(self):
@@ -554,14 +554,11 @@ class HistModel:
     def apply(self, st, op):
         seed = _seed()
         hist = st.hist + [op]
-        out = self._exec(hist)[-1]
         viols = []
         version, reads = st.version, st.reads
-        if op[0] in ("w", "rn"):
-            version = op[1]
-            if out is not None:
-                raise RuntimeError(f"harness: writing failed {out}")
-            return HState(hist, version, reads), viols
+        if op[0] in ("w", "rn"):          # executed (in order) when a later load replays the history
+            return HState(hist, op[1], reads), viols
+        out = self._exec(hist)[-1]
         kind = op[0] if op[0] != "model" else "model-" + op[1]
         content = version_array(version, seed)
         placed = content if kind == "load" else ref_place(content, H_DSHAPE, 0, 0)
